@@ -21,7 +21,8 @@ def _loader(ctx: Ctx):
                 any_call = True
             if isinstance(n, ast.Assign) and isinstance(n.value, ast.Call) and (ctx.T.resolve_callee(f, n.value) or "") == "ext:pickle.load":
                 hits.append((f, n))
-            if isinstance(n, ast.Return) and isinstance(n.value, ast.Call) and (ctx.T.resolve_callee(f, n.value) or "") == "ext:pickle.load":
+            if isinstance(n, ast.Return) and isinstance(n.value, ast.Call) and (ctx.T.resolve_callee(f, n.value) or "") == "ext:pickle.load" \
+                    and not f.node.decorator_list:
                 wrappers[f.qualname] = f
     for q, w in wrappers.items():
         for f2, call in ctx.callers_of(q):
@@ -35,6 +36,17 @@ def _loader(ctx: Ctx):
 
 def cache_flow(ctx: Ctx) -> RuleResult:
     r = RuleResult("CACHE-FLOW")
+    # the file is read at every restart: the function that unpickles it is not memoised (a path that was written again by a later caching
+    # run must not come back with the content of the first read)
+    for f_ in ctx.funcs():
+        if any(isinstance(n, ast.Call) and (ctx.T.resolve_callee(f_, n) or "") == "ext:pickle.load" for n in iter_own_nodes(f_.node)):
+            memo = [d for d in f_.node.decorator_list if any(w in norm_src(d) for w in ("lru_cache", "cache", "memoize", "memoise"))]
+            r.ob(not memo, {"in": f_.short, "reads the cache file at every call (not memoised)": not memo})
+            if memo:
+                r.violate(f"{f_.short}: the function that unpickles the cache file is memoised ({norm_src(memo[0])[:40]})", f_.loc(),
+                          "a restart from a path that a later caching run has rewritten gets the content of the first read (and the very same "
+                          "objects): the stale results of an earlier run", norm_src(memo[0]))
+                return r
     hits = _loader(ctx)
     if not hits:
         r.ob(False)
